@@ -137,6 +137,15 @@ class Engine:
             fi._assigned = s
         return s
 
+    def rel(self, clause):
+        """Is this clause part of the property being checked?  (untagged clauses belong to every property)"""
+        pid = getattr(self, "pid", None)
+        pr = getattr(clause, "props", ()) or ()
+        if pid is None or not pr:
+            return True
+        from .contracts import DEPS
+        return bool(set(pr) & DEPS.get(pid, {pid}))
+
     def where(self, node):
         return "%s:%s" % (self.func.path if self.func else "?", getattr(node, "lineno", "?"))
 
@@ -306,7 +315,8 @@ class Engine:
         if c is not None and c.chooses and self.inline_depth == 0 and st is not None and isinstance(s, (ast.Assign, ast.AugAssign, ast.Expr)) \
                 and self.func is not None and self.func.qual == c.qual:
             for ch in c.chooses.get(ast.unparse(s), []):
-                self.apply_choose(ch, st, s)
+                if self.rel(type("C", (), {"props": ch["props"]})):
+                    self.apply_choose(ch, st, s)
                 self.hooks_fired.add("choose:" + ast.unparse(s))
         if c is not None and c.hooks and self.inline_depth == 0 and st is not None and isinstance(s, (ast.Assign, ast.AugAssign, ast.Expr)):
             h = c.hooks.get(ast.unparse(s))
@@ -602,8 +612,10 @@ class Engine:
                 st.env["ghost." + gk] = self.ev_spec(ast.parse(gexpr, mode="eval").body, st, pre=self.entry_state)
         if spec:
             for inv in spec.invariants:
+                if not self.rel(inv):
+                    continue
                 g = self.eval_clause(inv, st, pre=self.entry_state, polarity=1)
-                self.oblige("%s::inv-entry::%s" % (tag, inv.name), st, g, "inv-entry", inv.top, spec.props, s, inv)
+                self.oblige("%s::inv-entry::%s" % (tag, inv.name), st, g, "inv-entry", inv.top, inv.props or spec.props, s, inv)
         # 2. havoc
         locals_mod, heap_mod, prefix_mod = frames.loop_writes(self, s, st)
         head = st.copy()
@@ -651,10 +663,12 @@ class Engine:
         # 3. assume invariant
         if spec:
             for inv in spec.invariants:
+                if not self.rel(inv):
+                    continue
                 g = self.eval_clause(inv, head, pre=self.entry_state, polarity=-1)
                 head.pc = z3.And(head.pc, g)
         v0 = None
-        if spec and spec.variant:
+        if spec and spec.variant and self.rel(type("C", (), {"props": spec.props or ("C03",)})):
             v0 = [self.ev_spec(v, head, pre=self.entry_state).get_num() for v in spec.variant]
         g = z3.simplify(guard(head))
         body_st = head.copy()
@@ -695,12 +709,14 @@ class Engine:
                     self.oblige("%s::shape-preserved::%s" % (tag, nm), b, ok, "inv-preserved", False, spec.props if spec else (), s)
             if spec:
                 for inv in spec.invariants:
+                    if not self.rel(inv):
+                        continue
                     gl = self.eval_clause(inv, b, pre=self.entry_state, polarity=1)
-                    self.oblige("%s::inv-preserved::%s" % (tag, inv.name), b, gl, "inv-preserved", inv.top, spec.props, s, inv)
+                    self.oblige("%s::inv-preserved::%s" % (tag, inv.name), b, gl, "inv-preserved", inv.top, inv.props or spec.props, s, inv)
                 if v0 is not None:
                     v1 = [self.ev_spec(v, b, pre=self.entry_state).get_num() for v in spec.variant]
                     g_next = guard(b.copy())  # only iterations that continue need to decrease
-                    self.oblige("%s::variant-decreases" % tag, b, z3.Implies(g_next, lex_decrease(v0, v1)), "variant", False, spec.props, s)
+                    self.oblige("%s::variant-decreases" % tag, b, z3.Implies(g_next, lex_decrease(v0, v1)), "variant", False, spec.props or ("C03",), s)
         # 5. after loop: normal exit + breaks  (else-clause ignored when absent)
         if s.orelse:
             exit_st = self.exec_block(s.orelse, exit_st)
